@@ -27,7 +27,7 @@ def run(prog, rep, tier='quick', config='default'):
         return
     f = L.fn
     reg = L.region['Split']
-    a = L.assignments(L.acb_locals, reg)
+    a = [x for x in L.assignments(L.acb_locals, reg) if not L.is_copy_of_previous_acb(x[1], x[2])]
     g = L.assignments(L.gain_locals, reg)
     if not a and not g:
         rep.ok('R15a', 'split-arm-leaves-cost-base-and-gain-untouched', fn=f.name, detail='no assignment of the cost base or the capital gain in the Split arm (%d blocks)' % len(reg))
@@ -104,25 +104,44 @@ def run(prog, rep, tier='quick', config='default'):
             rep.violation('R15c', 'anchor-lost:expansion-shape', fn=ex.name, detail='anchor lost: clone / affiliate store / insert in the global-split expansion')
 
     # ------------------------------------------------------------------ R15d: the window scans handle splits
-    scan = prog.fn('portfolio::bookkeeping::superficial_loss::get_superficial_loss_info')
+    scan = None
+    for cand in prog.product_fns():
+        if cand.name.startswith('portfolio::bookkeeping::superficial_loss::') and len([x for x in cand.calls if x.callee.endswith('pre_to_post_factor')]) >= 2:
+            scan = cand
+    scan = scan or prog.fn('portfolio::bookkeeping::superficial_loss::get_superficial_loss_info')
     if rep.anchor('get_superficial_loss_info', scan):
         loops = scan.iterator_loops()
         n_ok = 0
+        conditional = []
         for (nc, header, body) in loops:
             has_split = False
             feeds = False
-            for i in body:
+            entry = None
+            for i in sorted(body):
                 for s in scan.blocks[i]['stmts']:
                     for pl in scan.stmt_sources(s):
                         if any(isinstance(e, dict) and e.get('dc') == 'Split' for e in pl['p']):
                             has_split = True
+                            if entry is None:
+                                entry = i
+            ins_blocks = set()
             for c in scan.calls:
                 if c.bb in body and c.short == 'insert' and re.search(r'HashMap<&portfolio::model::affiliate::Affiliate, util::decimal::ConstrainedDecimal', scan.ty.get(c.arg_local(0), '')):
                     o = mir.provenance(scan, c.args[-1], follow_all_call_args=True)
                     if o.has_call(r'pre_to_post_factor$'):
                         feeds = True
+                        ins_blocks.add(c.bb)
             if has_split and feeds:
                 n_ok += 1
+                # the factor is recorded for every split row of the window, unconditionally
+                if entry is not None and entry not in ins_blocks and scan.reaches(entry, header, avoid=ins_blocks):
+                    conditional.append((nc, entry))
+        for (nc, entry) in conditional:
+            rep.violation('R15d', 'split-factor-recorded-unconditionally', where=nc.where(), fn=scan.name,
+                          detail='a Split row inside the 30-day window can be passed over without updating the affiliate\'s adjustment factor (the update is '
+                                 'conditional): later share counts of that affiliate are then compared in the wrong split period')
+        if n_ok >= 2 and not conditional:
+            rep.ok('R15d', 'split-factor-recorded-unconditionally', fn=scan.name, detail='in both scans every Split row reaches the factor update')
         if n_ok >= 2:
             rep.ok('R15d', 'both-window-scans-apply-splits', fn=scan.name, detail='%d scan loops have a Split case that updates the per-affiliate adjustment factor from pre_to_post_factor()' % n_ok)
         else:
